@@ -44,4 +44,59 @@ PROPS = {
         "not_decided": ["interleavings of FileId::new across threads (atomicity of AtomicU64::fetch_add assumed; Kani has no threads)",
                         "concurrent parse/validate/introspect equivalence (schedules)"],
     },
+    "C10": {
+        "level": "proof",
+        "verus": ["name"],
+        "kani": ["apollo-compiler/name.rs", "apollo-compiler/ast_impls.rs"],
+        "technique": "Verus contracts on extracted Name code (unbounded) + bounded Kani harnesses for the numeric literal checks and the unsafe constructors",
+        "explanation": "Verus proves for every string of any length that Name::is_valid_syntax equals the Name grammar and that Name::new / new_static / "
+                       "check_valid_syntax return Ok iff it holds (the same function serves serde deserialization). Bounded stand-ins (Kani, fixed lengths, "
+                       "not counted as proved): IntValue/FloatValue::valid_syntax equal the IntValue/FloatValue grammar on all ASCII strings up to length 3 "
+                       "(5 in thorough); the unsafe constructors read back the bytes supplied.",
+        "not_decided": ["From<i32>/From<f64> -> literal -> same number (core::fmt float printing; not reachable by either verifier)",
+                        "Type Display/parse round-trip (fmt + full parser)",
+                        "numeric syntax beyond the stated length bound; non-ASCII input to the numeric checks",
+                        "that a byte string of valid UTF-8 matches [_A-Za-z][_0-9A-Za-z]* as chars iff it matches as bytes (all accepted bytes are ASCII: lemma_name_is_ascii)"],
+    },
+    "C11": {
+        "level": "proof",
+        "verus": ["linecol"],
+        "kani": ["apollo-compiler/parser.rs"],
+        "technique": "Verus loop invariants on the extracted byte loop (unbounded) + complete Kani harness for Name location packing",
+        "explanation": "Verus proves for every source text and offset that SourceFile::get_line_column returns None iff the offset is out of bounds, "
+                       "line = 1 + number of GraphQL LineTerminators (LF, CRLF as one, CR) ending at or before the offset, and column = 1 + number of UTF-8 "
+                       "leading bytes since the line start. Kani proves for all u32 offsets / 63-bit file ids that a name's location reads back exactly the "
+                       "span supplied and covers exactly the name's text.",
+        "not_decided": ["that from_cst attaches the right span to every node (whole AST conversion)",
+                        "diagnostic / JSON rendering (ariadne keeps its own line numbering in rendered text reports)",
+                        "leading-byte count == scalar-value count (definition of UTF-8; assumed)"],
+    },
+    "C30": {
+        "level": "model_checking",
+        "kani": ["apollo-compiler/name.rs", "apollo-compiler/node.rs", "apollo-compiler/parser.rs"],
+        "technique": "Kani/CBMC on the real unsafe code with a reference-count representation invariant asserted after every step; bounded histories",
+        "explanation": "Representation invariant of Name (strong count of the backing Arc<str> == 1 + live heap names) checked after every step of every "
+                       "6-step (8 in thorough) history over a pool of 3 names, with CBMC's pointer checks (use after free, double free, out of bounds) on the real "
+                       "unsafe code; static names never touch a count; location/text read back; equality and hashing ignore locations; Node copy-on-write "
+                       "leaves clones unchanged. Histories are bounded, so this is a bounded stand-in, not a proof.",
+        "not_decided": ["interleavings across threads (unsafe impl Send/Sync): Kani has no threads", "histories longer than the stated bound", "leak detection beyond the counted Arc"],
+    },
+    "C03": {
+        "level": "proof",
+        "kani": ["apollo-parser/lexer.rs"],
+        "technique": "Kani/CBMC, loop-free harnesses over every char value against the spec's lexical tables",
+        "explanation": "KERNEL ONLY: the character classes the lexer state machine dispatches on (Punctuator table with kinds, NameStart, NameContinue, "
+                       "whitespace/LineTerminator/BOM, EscapedCharacter) equal the October 2021 tables for every char value, and the Start-state classes are pairwise disjoint.",
+        "not_decided": ["token boundaries / maximal munch", "lookahead restrictions on numbers and names", "tokens concatenated reproduce the input", "error iff not a sequence of valid tokens",
+                        "i.e. the state machine Cursor::advance itself (Kani cannot execute it symbolically; no Verus model of CharIndices yet)"],
+    },
+    "C21": {
+        "level": "proof",
+        "kani": ["apollo-compiler/validation.rs"],
+        "technique": "Kani/CBMC, loop-free harness over all usize triples on the real recursion guard",
+        "explanation": "KERNEL ONLY: the recursion guard every recursive validator uses: DepthGuard::increment errs iff value+1 > limit, tracks the high-water mark, "
+                       "and dropping the guard restores the depth (all usize values).",
+        "not_decided": ["the main clause: no panic / stack overflow across build, validate, serialize, introspect, render for every input text",
+                        "RecursionGuard (IndexSet + ahash: not executable under Kani without stubbing getrandom)", "diagnostics sorted by position (std sort_by_key)"],
+    },
 }
